@@ -239,3 +239,41 @@ where
         .or_else(|| if op == "conv" { Some(do_conv::<Q>(a)) } else { None })
         .unwrap_or_else(|| "ERR unknown op".to_string())
 }
+
+// ---- serde (feature "serde") ------------------------------------------------
+#[cfg(feature = "serde")]
+pub fn do_serde<Q>(op: &str, a: &[&str]) -> Option<String>
+where
+    Q: Quantity + serde::Serialize + serde::de::DeserializeOwned,
+    Q::UnitType: serde::Serialize + serde::de::DeserializeOwned,
+{
+    Some(match op {
+        // JSON text of the value tree
+        // the value tree, canonically: F<bits of the number> | S<string>, unit name, number of keys
+        "ser" => {
+            let v = serde_json::to_value(qty::<Q>(a[0], a[1])).unwrap();
+            let am = &v["amount"];
+            let at = if let Some(s) = am.as_str() { format!("S{}", cps(s)) }
+                     else if let Some(x) = am.as_f64() { format!("F{:016x}", x.to_bits()) } else { format!("?{}", am) };
+            let ut = match v.get("unit") { Some(u) => cps(u.as_str().unwrap_or("?")), None => "-".to_string() };
+            format!("{} {} keys={}", at, ut, v.as_object().map(|o| o.len()).unwrap_or(0))
+        }
+        "ser_unit" => match serde_json::to_value(unit_at::<Q>(a[0])).unwrap().as_str() { Some(s) => cps(s), None => "?".to_string() },
+        "ser_text" => cps(&serde_json::to_string(&qty::<Q>(a[0], a[1])).unwrap()),
+        // through the value tree
+        "rt_value" => {
+            let v = serde_json::to_value(qty::<Q>(a[0], a[1])).unwrap();
+            match serde_json::from_value::<Q>(v) { Ok(q) => show_q::<Q>(q), Err(_) => "DE-ERROR".to_string() }
+        }
+        // through JSON text, read back with an exactly rounding float parser (serde_json feature float_roundtrip)
+        "rt_text" => {
+            let s = serde_json::to_string(&qty::<Q>(a[0], a[1])).unwrap();
+            match serde_json::from_str::<Q>(&s) { Ok(q) => show_q::<Q>(q), Err(_) => "DE-ERROR".to_string() }
+        }
+        "rt_unit" => {
+            let v = serde_json::to_value(unit_at::<Q>(a[0])).unwrap();
+            match serde_json::from_value::<Q::UnitType>(v) { Ok(u) => unit_ix::<Q>(u).to_string(), Err(_) => "DE-ERROR".to_string() }
+        }
+        _ => return None,
+    })
+}
